@@ -85,7 +85,7 @@ CHECKS = {
    ref="DESIGN.md §5 C16"),
  "C07": dict(
    technique="runtime monitor: brute-force neighbour oracle (own L1/L2/Linf/Lp formulas in f64) for k-nearest and range queries of the three index kinds, cross-kind set equality incl. on-radius points, malformed-input error checks; exhaustive small 1-D/2-D scopes; child processes isolate the external kd-tree's stack overflow",
-   text="Every answer of linear scan, k-d tree and ball tree is judged: count = min(k,n), distinct in-range indices, coordinates bit-equal to the stored row, ascending order, distances equal to the k smallest true distances (ties free), range results containing everything strictly inside and nothing strictly outside, the kinds agreeing exactly (ball tree up to its rounding floor). All 1-D sequences over {0..3} (n<=4) and all 3x3-grid sequences (n<=3, 4 thorough) x queries x k x radius classes x leaf sizes x 5 metrics are enumerated; lattices and hostile clouds up to n=5000, dim 16 sampled.",
+   text="Every answer of linear scan, k-d tree and ball tree is judged: count = min(k,n), distinct in-range indices, coordinates bit-equal to the stored row, ascending order, distances equal to the k smallest true distances (ties free), range results containing everything strictly inside and nothing strictly outside, the three kinds agreeing exactly (the ball tree included, since fix 83fa6eb); the provided metrics themselves are judged against the textbook value on every view layout. All 1-D sequences over {0..3} (n<=4) and all 3x3-grid sequences (n<=3, 4 thorough) x queries x k x radius classes x leaf sizes x 7 metrics (L1, L2, Linf, Lp with p = 1.5, 3, 2, 1) are enumerated; lattices and hostile clouds up to n=5000, dim 16, six batch layouts sampled.",
    note="Trusts the harness distance formulas; floors 32(dim+4)eps*d (>= 96x above clean residuals). The external kdtree 0.6 crate's infinite recursion on adjacent-float batches is a recorded known finding (observed only in a dedicated child-process family; in-process families skip the k-d tree for such batches).",
    ref="DESIGN.md §5 C07"),
  "C11": dict(
